@@ -95,6 +95,7 @@ def h_threshold(k_half_open, k_established, history='none'):
     m, ik = MODS['message'], MODS['ikesa']
     S = ik.IkeSa.State
     c = world.Ctl()
+    c.ctl.cookie_threshold = 10 ** 6          # the history is built without cookies; the threshold under test is set afterwards
     for i in range(k_half_open):
         c.handshake(c.new_initiator(), upto=2)
     for i in range(k_established):
